@@ -685,7 +685,234 @@ def wrap_in_class(code, u):
     return "class Wrap%s(object):\n%s\n    pass" % (u, ind)
 
 
-NO_WRAP = {"t_py2_raise", "t_ext_edges", "t_shared_frozenset", "t_shared_big_tuple", "t_many_names", "t_misc", "t_import", "t_pep695", "t_line_gaps"}
+
+@template(tags=("zoo",), minlevel=(3, 6), py2=False)
+def t_opcode_zoo(rng, lvl, u):
+    """One program that reaches as many different opcodes as the level allows (every delete / store / load flavour,
+    every unary, binary and in-place operator, slices, unpacking, calls with * and **, closures, classes, generators,
+    coroutines, with / try / raise forms, imports, f-strings, ...)."""
+    out = ["""import sys
+from os import path as zp%(u)s, sep
+zg%(u)s = 1
+def zdel%(u)s(a, b=2, *c, d=4, **e):
+    global zg%(u)s
+    scratch = [a]
+    def inner():
+        nonlocal scratch
+        scratch = scratch + [b]
+        return scratch
+    r = inner()
+    del scratch
+    zg%(u)s = 2
+    del zg%(u)s
+    zg%(u)s = 3
+    x = {'k': 1}; del x['k']
+    class O: pass
+    o = O(); o.attr = 1; del o.attr
+    y = 1; del y
+    return r, c, d, e
+def zops%(u)s(a, b):
+    r = [a + b, a - b, a * b, a / b, a // b, a %% b, a ** 2, a << 1, a >> 1, a & b, a | b, a ^ b, -a, +a, ~a, not a]
+    a += 1; a -= 1; a *= 2; a //= 2; a %%= 7; a **= 2; a <<= 1; a >>= 1; a &= 255; a |= 1; a ^= 3; a /= 2
+    r.append(a)
+    r.append(a < b <= 10 != 4)
+    r.append(a is b or a is not None and b in (1, 2) and a not in [3])
+    r.append(a if b else -a)
+    return r
+def zseq%(u)s(s):
+    first, *mid, last = s
+    q = s[1:3], s[::2], s[1:], s[:-1], s[1:4:2]
+    s2 = list(s); s2[0] = 9; s2[1:2] = [7, 7]; s2[0] += 1
+    t = (*s, *mid); l = [*s, last]; st = {*s}; d = {**{'a': 1}, 'b': first}
+    return q, s2, t, l, st, d, [i for i in s if i], {i for i in s}, {i: i for i in s}, list(i for i in s)
+def zcall%(u)s(f, args, kw):
+    return f(*args), f(*args, **kw), f(1, *args, k=2, **kw) if False else None
+def zgen%(u)s(n):
+    for i in range(n):
+        if i == 1:
+            continue
+        if i > 3:
+            break
+        yield i
+    else:
+        yield -1
+    yield from range(2)
+async def zco%(u)s(x):
+    async with x as y:
+        await y
+    async for z in x:
+        await z
+    return [i async for i in x]
+def zexc%(u)s(f):
+    try:
+        f()
+    except (ValueError, KeyError) as e:
+        raise RuntimeError('x') from e
+    except OSError:
+        raise
+    else:
+        pass
+    finally:
+        f = None
+    with open(f) as a, open(f) as b:
+        pass
+    assert f, 'msg'
+    while f:
+        f -= 1
+    else:
+        f = 0
+async def zag%(u)s(x):
+    yield x
+    while x is None or x is not None:
+        x = None
+        if x is None:
+            yield 2
+        if x is not None:
+            yield 3
+def zlfc%(u)s(c):
+    if c:
+        w = 1
+    del c
+    try:
+        return w
+    finally:
+        w = 2
+def zcl%(u)s(n):
+    for i in range(n):
+        try:
+            if i:
+                continue
+            if i > 2:
+                break
+        finally:
+            n = n + 0
+    for j in range(n):
+        try:
+            pass
+        finally:
+            if j:
+                break
+    return n
+def zdeco%(u)s(fn): return fn
+@zdeco%(u)s
+class ZC%(u)s(object, metaclass=type):
+    'doc'
+    cv: int = 1
+    def m(self, a: int = 1, *, k: str = 's') -> int:
+        return super().m() if False else self.cv
+    @staticmethod
+    def s(): return __class__
+zl%(u)s = lambda a, b=1, *c, d=2, **e: (a, b, c, d, e)
+zf%(u)s = f"{zg%(u)s!r:>10} {zg%(u)s!s} {zg%(u)s:{zg%(u)s}} {zg%(u)s!a}"
+from os.path import *
+zu1%(u)s, zu2%(u)s = zf%(u)s[:2]
+del zu1%(u)s
+def zcd%(u)s(outer):
+    class K:
+        inner = outer
+    return K
+print(zdel%(u)s(1)[0], zops%(u)s(5, 3)[:3], zseq%(u)s([1, 2, 3, 4, 5])[0], list(zgen%(u)s(6)), zl%(u)s(1), len(zf%(u)s) > 0)
+""" % {"u": u}]
+    if lvl >= (3, 5):
+        out.append("def zmat%s(a, b):\n    a @= b\n    return a @ b" % u)
+    if lvl >= (3, 8):
+        out.append("zfe%s = f'{zg%s=} {zg%s = !r:^8}'" % (u, u, u))
+        out.append("def zwal%s(a, /, b):\n    if (n := a + b) > 1:\n        return n\n    return [y := 1, y ** 2]" % u)
+    if lvl >= (3, 10):
+        out.append("def zmatch%s(p):\n    match p:\n        case [1, *r]:\n            return r\n        case {'k': v, **rest}:\n"
+                   "            return v, rest\n        case ZC%s(cv=1) | str() as q:\n            return q\n        case _:\n            return None" % (u, u))
+    if lvl >= (3, 11):
+        out.append("def zeg%s(f):\n    try:\n        f()\n    except* ValueError as eg:\n        f = eg\n    except* TypeError:\n        raise\n    return f" % u)
+    if lvl >= (3, 12):
+        out.append("type ZA%s[T] = list[T]\ndef zgf%s[T: int](x: T) -> T:\n    return x\nclass ZG%s[T]:\n    def m(self) -> T: ...\n"
+                   "def zsup%s():\n    class D(ZC%s):\n        def m(self):\n            return super().m(), super().cv\n    return D" % (u, u, u, u, u))
+    return "\n".join(out)
+
+
+@template(tags=("zoo",), py2=True)
+def t_opcode_zoo2(rng, lvl, u):
+    """Python 2 counterpart of t_opcode_zoo (print forms, exec, backticks, old slices, tuple parameters, raise forms)."""
+    if lvl >= (3, 0):
+        return "zz%s = 1" % u
+    return """import sys
+from os import *
+from os import path as zp%(u)s
+zg%(u)s = 1
+def zops%(u)s(a, b):
+    r = [a + b, a - b, a * b, a / b, a // b, a %% b, a ** 2, a << 1, a >> 1, a & b, a | b, a ^ b, -a, +a, ~a, not a, `a`]
+    a += 1; a -= 1; a *= 2; a //= 2; a %%= 7; a **= 2; a <<= 1; a >>= 1; a &= 255; a |= 1; a ^= 3; a /= 2
+    r.append(a < b <= 10 != 4 <> 5)
+    r.append(a is b or a is not None and b in (1, 2) and a not in [3])
+    r.append(a if b else -a)
+    return r
+def zseq%(u)s(s, (p, q)=(1, 2)):
+    s2 = list(s)
+    x = s2[:], s2[1:], s2[:2], s2[1:2], s2[::2]
+    s2[:] = s2; s2[1:] = s2[1:]; s2[:1] = s2[:1]; s2[1:2] = [7]
+    del s2[0:1]; del s2[:]; s2 = list(s); del s2[1:]; del s2[:1]
+    s2 = list(s); s2[0] += 1; s2[0:1] += [1]
+    return x, s2, [i for i in s if i], dict((i, i) for i in s), {i for i in s}, {i: i for i in s}
+def zprint%(u)s(f):
+    print >>f, 'a', 'b',
+    print >>f
+    print 'x',
+    exec 'zq = 1' in {}
+    exec 'zq = 2'
+def zexc%(u)s(f):
+    try:
+        f()
+    except (ValueError, KeyError), e:
+        raise RuntimeError, 'x'
+    except OSError:
+        raise
+    else:
+        pass
+    finally:
+        f = None
+    with open(f) as a:
+        pass
+    assert f, 'msg'
+    while f:
+        f -= 1
+        if f == 3: continue
+        if f == 1: break
+    else:
+        f = 0
+def zgen%(u)s(n):
+    for i in xrange(n):
+        try:
+            if i == 1:
+                continue
+        finally:
+            pass
+        yield i
+def zcall%(u)s(f, args, kw):
+    return f(*args), f(**kw), f(*args, **kw), f(1, k=2, *args, **kw)
+def zdel%(u)s(a):
+    global zg%(u)s
+    y = 1; del y
+    zg%(u)s = 2; del zg%(u)s; zg%(u)s = 3
+    x = {'k': 1}; del x['k']
+    class O: pass
+    o = O(); o.attr = 1; del o.attr
+    def inner(): return a
+    return inner
+class ZC%(u)s(object):
+    'doc'
+    __metaclass__ = type
+    def m(self): return super(ZC%(u)s, self)
+zl%(u)s = lambda a, b=1, *c, **e: (a, b, c, e)
+zu1%(u)s, zu2%(u)s = 'ab'
+del zu1%(u)s
+def zsd%(u)s(a):
+    def inner(): return a
+    a = a + 1
+    return inner
+print zops%(u)s(5, 3)[:3], zl%(u)s(1)
+""" % {"u": u}
+
+
+NO_WRAP = {"t_opcode_zoo", "t_opcode_zoo2", "t_py2_raise", "t_ext_edges", "t_shared_frozenset", "t_shared_big_tuple", "t_many_names", "t_misc", "t_import", "t_pep695", "t_line_gaps"}
 NO_CLASS_WRAP = NO_WRAP | {"t_long_loop", "t_class3", "t_closure", "t_shared", "t_class2", "t_async", "t_control", "t_deep",
                            "t_backward_lines", "t_long_columns", "t_py2_long", "t_ints", "t_floats", "t_complex",
                            "t_strings", "t_bytes", "t_comp", "t_misc3", "t_try_nest", "t_match", "t_except_star",
